@@ -14,7 +14,8 @@
 using namespace vt;
 
 // d_nan: the map reports a NaN density for one channel (the weight is NaN; the other channel's density stays finite)
-enum poison { none = 0, f_nan, f_pinf, f_ninf, proj_nan, proj_inf, w_inf, d_nan };
+// d_nan_dis: the NaN density belongs to a *disabled* channel (weight 0): 0 x NaN is still NaN, the point has no usable weight
+enum poison { none = 0, f_nan, f_pinf, f_ninf, proj_nan, proj_inf, w_inf, d_nan, d_nan_dis };
 
 struct plan
 {
@@ -38,7 +39,7 @@ template <typename T> static T poisoned_value(plan& p, T clean, bool can_winf)
         if (p.lane_z) r = T();
         else { r = k == f_nan ? std::numeric_limits<T>::quiet_NaN() : (k == f_pinf ? inf : -inf); ++p.poisoned; }
     }
-    else if ((k == w_inf || k == d_nan) && can_winf)
+    else if ((k == w_inf || k == d_nan || k == d_nan_dis) && can_winf)
     {
         if (p.lane_z) r = T();
         else ++p.poisoned; // finite non-zero value times an infinite weight
@@ -160,6 +161,7 @@ template <typename T> static std::vector<lane_rec<T>> run_lane(int kind, plan p,
                 de[0] = zero ? T() : T(1);
                 de[1] = zero ? T() : (x > T() ? T(0.5) / std::sqrt(x) : T(1e6));
                 if (p.cur == d_nan) de[1] = std::numeric_limits<T>::quiet_NaN();
+                de[2] = p.cur == d_nan_dis ? std::numeric_limits<T>::quiet_NaN() : T(3);
             }
             return T(1);
         };
@@ -179,14 +181,14 @@ template <typename T> static std::vector<lane_rec<T>> run_lane(int kind, plan p,
             ++p.call;
             return v;
         };
-        auto chk = hep::make_multi_channel_chkpt<T>(T(0.05), T(0.5), eng);
+        auto chk = hep::make_multi_channel_chkpt<T>(std::vector<T>{T(1), T(1), T(0)}, T(0.05), T(0.5), eng); // the third channel is disabled
         using C = decltype(chk);
         for (std::size_t N : iters)
         {
             p.poisoned = 0;
-            if (dists) chk = hep::multi_channel(hep::make_multi_channel_integrand<T>(fn, 1, map, 1, 2, d1, d2), std::vector<std::size_t>{N}, chk,
+            if (dists) chk = hep::multi_channel(hep::make_multi_channel_integrand<T>(fn, 1, map, 1, 3, d1, d2), std::vector<std::size_t>{N}, chk,
                 hep::callback<C>(hep::callback_mode::silent));
-            else chk = hep::multi_channel(hep::make_multi_channel_integrand<T>(fn0, 1, map, 1, 2), std::vector<std::size_t>{N}, chk,
+            else chk = hep::multi_channel(hep::make_multi_channel_integrand<T>(fn0, 1, map, 1, 3), std::vector<std::size_t>{N}, chk,
                 hep::callback<C>(hep::callback_mode::silent));
             lane_rec<T> r;
             common(r, chk.results().back());
@@ -211,9 +213,9 @@ template <typename T> static void run_pair(int run, int kind, rng& g, bool dists
     for (std::size_t i = 0; i != len; ++i)
     {
         int k = none;
-        if (g.below((unsigned) density) == 0) k = 1 + (int) g.below(7);
+        if (g.below((unsigned) density) == 0) k = 1 + (int) g.below(8);
         if (k == w_inf && kind != 2) k = f_ninf;
-        if (k == d_nan && kind != 2) k = f_nan;
+        if ((k == d_nan || k == d_nan_dis) && kind != 2) k = f_nan;
         if ((k == proj_nan || k == proj_inf) && !dists) k = f_pinf;
         p.kind.push_back(k);
     }
